@@ -312,10 +312,27 @@ func CheckUserInput(conf Root) error {
 		for _, name := range ig.Notification.Columns {
 			check("notification column name", name)
 		}
-		for _, inp := range ig.Event.Inputs {
-			check("referenced column name", inp.Filter.Ref.Column)
+		for _, cols := range ig.Table.Unique {
+			for _, name := range cols {
+				check("unique column name", name)
+			}
 		}
+		for _, cols := range ig.Table.Index {
+			for _, name := range cols {
+				check("index column name", name)
+			}
+		}
+		var checkInputs func([]dig.Input)
+		checkInputs = func(inputs []dig.Input) {
+			for _, inp := range inputs {
+				check("referenced table name", inp.Filter.Ref.Table)
+				check("referenced column name", inp.Filter.Ref.Column)
+				checkInputs(inp.Components)
+			}
+		}
+		checkInputs(ig.Event.Inputs)
 		for _, bd := range ig.Block {
+			check("referenced table name", bd.Filter.Ref.Table)
 			check("referenced column name", bd.Filter.Ref.Column)
 		}
 	}
